@@ -18,6 +18,75 @@ def coq_nlist(xs, per_line=24):
     return "[" + ";\n ".join(lines) + "]"
 
 
+BUILTIN_FILES = ["char", "list", "number", "ports", "predicate", "procedure", "rand", "string", "symbol", "vector"]
+
+
+def builtins(repo):
+    """(name, rust function) for every vm.load_builtin(..) in registration order
+    (builtin/mod.rs load_builtins calls the modules in BUILTIN_FILES order)"""
+    mod = open(os.path.join(repo, "marwood/src/vm/builtin/mod.rs")).read()
+    order = re.findall(r"^\s*(\w+)::load_builtins\(self\);", mod, re.M)
+    out = []
+    for m in order:
+        src = open(os.path.join(repo, "marwood/src/vm/builtin/%s.rs" % m)).read()
+        for name, fn in re.findall(r'vm\.load_builtin\(\s*"([^"]+)"\s*,\s*(\w+)\s*\)', src):
+            out.append((name, m + "::" + fn))
+    return out
+
+
+def coq_text(s):
+    return coq_nlist([ord(c) for c in s], 32)
+
+
 def regenerate(repo, gendir):
     changed = []
+    # ---- Builtins.v
+    bs = builtins(repo)
+    lines = ["(* GENERATED from %s/marwood/src/vm/builtin/*.rs by lib/gen_coq.py - do not edit *)" % repo,
+             "From Coq Require Import NArith List.", "Import ListNotations.", "Open Scope N_scope.",
+             "(* index in this list = builtin id; (name, id of the first builtin sharing the same Rust fn) *)",
+             "Definition builtin_table : list (list N * N) := ["]
+    first = {}
+    rows = []
+    for i, (name, fn) in enumerate(bs):
+        first.setdefault(fn, i)
+        rows.append("  (%s, %d) (* %d %s %s *)" % (coq_text(name), first[fn], i, name.replace("*)", "* )"), fn))
+    lines.append(";\n".join(rows))
+    lines.append("].")
+    if write_if_changed(os.path.join(gendir, "Builtins.v"), "\n".join(lines) + "\n"):
+        changed.append("Builtins.v")
+    # ---- Prelude.v
+    prelude = open(os.path.join(repo, "marwood/prelude.scm"), encoding="utf-8").read()
+    body = ["(* GENERATED from %s/marwood/prelude.scm by lib/gen_coq.py - do not edit *)" % repo,
+            "From Coq Require Import NArith List.", "Import ListNotations.", "Open Scope N_scope.",
+            "Definition prelude_text : list N :=", coq_text(prelude) + "."]
+    if write_if_changed(os.path.join(gendir, "Prelude.v"), "\n".join(body) + "\n"):
+        changed.append("Prelude.v")
+    # ---- GcParams.v
+    modrs = open(os.path.join(repo, "marwood/src/vm/mod.rs")).read()
+    runrs = open(os.path.join(repo, "marwood/src/vm/run.rs")).read()
+    heaprs = open(os.path.join(repo, "marwood/src/vm/heap.rs")).read()
+    def find(rx, src, what):
+        m = re.search(rx, src)
+        return m.group(1) if m else None
+    chunk = find(r"const HEAP_CHUNK_SIZE: usize = (\d+);", modrs, "chunk")
+    cadence = find(r"cycles % (\d+) == 0", runrs, "cadence")
+    lo = find(r"as f64\) < (0\.\d+)_f64", runrs, "lo")
+    hi = find(r"as f64\) > (0\.\d+)_f64", runrs, "hi")
+    growth = find(r"as f64 \* (\d+\.\d+)\)", heaprs, "growth")
+    def frac(x):
+        if x is None:
+            return "None"
+        a, b = x.split(".")
+        return "Some (%d, %d)" % (int(a + b), 10 ** len(b))
+    g = ["(* GENERATED from %s/marwood/src/vm/{mod,run,heap}.rs by lib/gen_coq.py - do not edit *)" % repo,
+         "From Coq Require Import NArith.", "Open Scope N_scope.",
+         "(* None = the translator no longer finds the constant in the source *)",
+         "Definition heap_chunk_size : option N := %s." % ("Some %s" % chunk if chunk else "None"),
+         "Definition gc_cadence : option N := %s." % ("Some %s" % cadence if cadence else "None"),
+         "Definition gc_skip_below : option (N * N) := %s. (* numerator, denominator *)" % frac(lo),
+         "Definition gc_grow_above : option (N * N) := %s." % frac(hi),
+         "Definition heap_growth_factor : option (N * N) := %s." % frac(growth)]
+    if write_if_changed(os.path.join(gendir, "GcParams.v"), "\n".join(g) + "\n"):
+        changed.append("GcParams.v")
     return changed
